@@ -86,7 +86,7 @@ def run_case(c):
     t, N, B, se, E = c["type"], c["N"], c["B"], c["se"], c["E"]
     n = 2
     state = make_state(t, n, c.get("seed", 0))
-    data = torch.tensor([R.index_to_row(k % 4, n) for k in range(N)], dtype=torch.double)
+    data = torch.tensor([R.index_to_row(k % 4, n) if k % 2 == 0 else [0, 0] for k in range(N)], dtype=torch.double)   # rotated rows: outcome 00
     bases = np.array([["Z", "Z"] if k % 2 == 0 else ["X", "Y"] for k in range(N)]).reshape(N, n)
     trace = []
     counter = [0]
